@@ -11,8 +11,8 @@ import (
 	"fmt"
 	"math/rand"
 	"regexp"
-	"strconv"
 	"strings"
+	"time"
 
 	"verif/harness/coqx"
 )
@@ -149,8 +149,66 @@ func xLRA(r *rand.Rand, class *[]string, double bool) string {
 	return fn + pre + " (" + xMatchers(r) + xPipeline(r, class, unwrap) + " [" + xDur(r) + "])" + suf + xCmp(r, class)
 }
 
+// ranges of at least 15 s written in units below the second. xSubSecond: NOT a whole number of seconds, the truncated seconds
+// are a multiple of 15 (the roll-up table cannot answer them: a d-window is not a union of 15 s slots; seed C08-e tested whole
+// seconds); xOddMultiples: whole multiples of 15 s in every unit (the shortcut applies); xNear: neither
+var xSubSecond = []string{"15500ms", "30500ms", "15001ms", "45000000001ns", "15000001us", "30999ms", "60001ms", "15999999999ns"}
+var xOddMultiples = []string{"15000ms", "30000ms", "45s", "45000000us", "15000000000ns", "60000ms"}
+var xNear = []string{"15s", "30s", "16s", "20500ms", "14999ms"}
+
+// a query the 15 s roll-up table could answer but for its range: rate / count_over_time, alone or under a vector aggregation /
+// topk, over a pipeline of stream-label filters and line filters that keep every line
+func xShortcutQuery(r *rand.Rand) (string, []string) {
+	class := []string{"shortcut-shape"}
+	var d string
+	switch r.Intn(6) {
+	case 0:
+		d = pick(r, xOddMultiples)
+		class = append(class, "range-odd-unit-multiple-of-15s")
+	case 1:
+		d = pick(r, xNear)
+	default:
+		d = pick(r, xSubSecond)
+		class = append(class, "range-subsecond-ge-15s")
+	}
+	ppl := ""
+	n := r.Intn(3)
+	for i := 0; i < n; i++ {
+		if r.Intn(2) == 0 {
+			ppl += " " + []string{"|=", "|~"}[r.Intn(2)] + ` ""`
+			class = append(class, "emptylinefilter")
+		} else {
+			ppl += " | " + []string{`level="error"`, `c="1"`, `c!="2"`, `job=~"ap"`, `level!="info"`}[r.Intn(5)]
+			class = append(class, "labelfilter")
+		}
+	}
+	fn := []string{"rate", "count_over_time"}[r.Intn(2)]
+	class = append(class, fn)
+	q := fn + " (" + xMatchers(r) + ppl + " [" + d + "])"
+	switch r.Intn(5) {
+	case 0, 1:
+		q += xCmp(r, &class)
+	case 2, 3:
+		agg := []string{"sum", "min", "max", "avg", "count"}[r.Intn(5)]
+		class = append(class, agg)
+		pre, suf := xGrouping(r, &class, 3)
+		if pre == "" && suf == "" {
+			class = append(class, "agg-no-grouping")
+		}
+		q = agg + pre + " (" + q + ")" + suf + xCmp(r, &class)
+	default:
+		fn := []string{"topk", "bottomk"}[r.Intn(2)]
+		class = append(class, fn)
+		q = fn + "(" + []string{"1", "2", "3"}[r.Intn(3)] + ", " + q + ")"
+	}
+	return q, class
+}
+
 func xQuery(r *rand.Rand) (string, []string) {
 	var class []string
+	if r.Intn(8) == 0 {
+		return xShortcutQuery(r)
+	}
 	if r.Intn(8) == 0 { // topk / bottomk over a range or vector aggregation
 		fn := []string{"topk", "bottomk"}[r.Intn(2)]
 		class = append(class, fn)
@@ -244,6 +302,11 @@ func xDB(r *rand.Rand, c Ctx) XDB {
 		}
 		db.Series = append(db.Series, XSeries{Day: day + int64(r.Intn(2)), Fp: int64(1000 + 17*i + r.Intn(10)), Labels: ls, Type: tp})
 	}
+	// bucket bounds: multiples of 5 s (every range in whole seconds of the generator is one) or of the range of the query
+	bound := int64(5e9)
+	if xCurRange > 0 && r.Intn(2) == 0 {
+		bound = xCurRange
+	}
 	for _, s := range db.Series {
 		m := 1 + r.Intn(5)
 		for j := 0; j < m; j++ {
@@ -256,9 +319,9 @@ func xDB(r *rand.Rand, c Ctx) XDB {
 			case 2:
 				ts = c.FromNs
 			case 3:
-				ts = (c.FromNs/5e9 + int64(1+r.Intn(10))) * 5e9 // on a bucket bound
+				ts = (c.FromNs/bound + int64(1+r.Intn(10))) * bound // on a bucket bound
 			case 4:
-				ts = (c.FromNs/5e9+int64(1+r.Intn(10)))*5e9 - 1
+				ts = (c.FromNs/bound+int64(1+r.Intn(10)))*bound - 1
 			default:
 				ts = c.FromNs + int64(r.Intn(int((c.ToNs-c.FromNs)/1e6)))*1e6
 			}
@@ -286,7 +349,20 @@ func xdbML(db XDB) string {
 	return y.Rec("d_gin", y.List(gin), "d_series", y.List(ser), "d_samples", y.List(sam))
 }
 
-var reRange = regexp.MustCompile(`\[(\d+)(s|m)\]`)
+var reRange = regexp.MustCompile(`\[(\d+(?:ns|us|ms|s|m|h))\]`)
+
+// the range of the (one) range aggregation of a generated query, in ns; 0 when none
+func xRangeNs(q string) int64 {
+	m := reRange.FindStringSubmatch(q)
+	if m == nil {
+		return 0
+	}
+	d, err := time.ParseDuration(m[1])
+	if err != nil {
+		return 0
+	}
+	return d.Nanoseconds()
+}
 
 func genMetricDB(r *rand.Rand, id int, ndb int) Case {
 	q, class := xQuery(r)
@@ -294,26 +370,18 @@ func genMetricDB(r *rand.Rand, id int, ndb int) Case {
 	// the window as FixPeriodPlanner hands it to the SQL: widened to whole range windows from the Unix epoch (fix_from / fix_to
 	// of model/LogqlMetricSem.v, theorem fix_window_whole_ranges); half of the cases. A raw window reaches the planners only
 	// when they are driven directly.
-	if m := reRange.FindStringSubmatch(q); m != nil && r.Intn(2) == 0 {
-		n, _ := strconv.ParseInt(m[1], 10, 64)
-		d := n * 1e9
-		if m[2] == "m" {
-			d *= 60
-		}
+	if d := xRangeNs(q); d > 0 && r.Intn(2) == 0 {
 		c.Ctx.FromNs = c.Ctx.FromNs / d * d
 		c.Ctx.ToNs = (c.Ctx.ToNs + d - 1) / d * d
 		c.Class = append(c.Class, "window-whole-ranges")
 	}
 	// topk / bottomk are judged when the step does not re-bucket the selection (step <= range): most of them get such a step
-	if m := reRange.FindStringSubmatch(q); m != nil && (strings.HasPrefix(q, "topk") || strings.HasPrefix(q, "bottomk")) && r.Intn(4) != 0 {
-		n, _ := strconv.ParseInt(m[1], 10, 64)
-		if m[2] == "m" {
-			n *= 60
-		}
-		if c.Ctx.StepMs > n*1000 {
+	if d := xRangeNs(q); d > 0 && (strings.HasPrefix(q, "topk") || strings.HasPrefix(q, "bottomk")) && r.Intn(4) != 0 {
+		n := d / 1e6 // whole milliseconds of the range (rounded down: the step stays <= range)
+		if c.Ctx.StepMs > n {
 			c.Ctx.StepMs = []int64{1000, 5000, 10000, 15000, 30000}[r.Intn(5)]
-			if c.Ctx.StepMs > n*1000 {
-				c.Ctx.StepMs = n * 1000
+			if c.Ctx.StepMs > n {
+				c.Ctx.StepMs = n
 			}
 		}
 	}
@@ -321,7 +389,11 @@ func genMetricDB(r *rand.Rand, id int, ndb int) Case {
 	return c
 }
 
+// the range of the query the databases are generated for (bucket bounds of xDB)
+var xCurRange int64
+
 func fillDBs(r *rand.Rand, c *Case, ndb int) {
+	xCurRange = xRangeNs(c.Query)
 	if len(c.Dbs) == 0 {
 		for i := 0; i < ndb; i++ {
 			c.Dbs = append(c.Dbs, xDB(r, c.Ctx))
